@@ -259,8 +259,9 @@ func (mr *memRepo) IndexInsert(desc types.Descriptor, opts ...types.IndexOpt) er
 	mr.mu.Lock()
 	mr.timeMod = time.Now()
 	mr.index.AddDesc(desc, opts...)
-	mr.mu.Unlock()
+	// the index now shares the annotations of desc, it is logged before the lock is released
 	mr.log.Debug("index entry added", "repo", mr.path, "desc", desc)
+	mr.mu.Unlock()
 	return nil
 }
 
